@@ -8,4 +8,11 @@ EXTRA = dict(assumptions=["jax.jit / jax.vmap preserve the semantics of the trac
 
 
 def check(tier, seed):
-    return check_property("C09", UNITS, tier, seed, extra=EXTRA)
+    from pyvc import bounded
+    lines, ev, err = bounded.compiled_api("C09", tier, seed)
+    extra = dict(EXTRA)
+    extra["bounded"] = list(extra.get("bounded", [])) + [ev]
+    for l in ev.get("known_finding_lines", []):
+        print(l)
+    code = check_property("C09", UNITS, tier, seed, extra=extra)
+    return bounded.finish_with_bounded("C09", code, lines, err)
